@@ -503,6 +503,110 @@ func (x *c09Work) valid(s *Sim, conn *Conn, kind, before int) {
 	}
 }
 
+// famC09Huge exercises the packet size limit itself: persisted publishes whose
+// remaining length is 268,435,455 - 1, exactly that, + 1 and + 2 bytes, on a
+// client that is offline (the packet goes to the Persistence, not to a wire).
+func famC09Huge(w *World, spec *RunSpec, res *RunResult) {
+	x := &c09Work{W: w}
+	w.X = x
+	t := w.Tape
+	w.Disk = NewDisk(w)
+	w.Broker = NewBroker(w)
+	w.FaultsOff = true
+	w.MaxSteps = 200000
+	const packetMax = 268435455
+	level := 1 + t.Draw("hugelevel", 2)
+	topic := "h/" + genValidString(t, 1)
+	if len(topic) > 40 {
+		topic = topic[:40]
+		for !validPrefix(topic) {
+			topic = topic[:len(topic)-1]
+		}
+	}
+	delta := []int{0, -1, 1, 2}[t.Draw("hugedelta", 4)]
+	n := packetMax - 2 - len(topic) - 2 + delta
+	msg := make([]byte, n)
+	msg[0], msg[n-1] = 0xa5, 0x5a
+	var cfg mqtt.Config
+	cfg.PauseTimeout = time.Second
+	cfg.AtLeastOnceMax, cfg.ExactlyOnceMax = 2, 2
+	RunBubble(w, func(s *Sim) {
+		w.Disk.Attach(s)
+		cfg.Dialer = s.Dialer()
+		s.Done = func() bool { return x.Done }
+		s.Unwind = func() {
+			if x.C != nil {
+				c := x.C
+				go c.Close()
+			}
+		}
+		s.Go("driver", func() {
+			defer func() { x.Done = true }()
+			c, err := mqtt.InitSession("huge", w.Disk, &cfg)
+			if err != nil {
+				w.Violate("C09", "valid-config-refused", "InitSession", "InitSession: %v", err)
+				return
+			}
+			x.C = c
+			saves0 := 0
+			for _, op := range w.Disk.Log {
+				if op.Kind == 'S' && op.Effect {
+					saves0++
+				}
+			}
+			var ex <-chan error
+			name := "PublishAtLeastOnce"
+			if level == 1 {
+				ex, err = c.PublishAtLeastOnce(msg, topic)
+			} else {
+				name = "PublishExactlyOnce"
+				ex, err = c.PublishExactlyOnce(msg, topic)
+			}
+			_ = ex
+			var rec []byte
+			saves := 0
+			for _, op := range w.Disk.Log {
+				if op.Kind == 'S' && op.Effect {
+					saves++
+					if op.Key != 0 {
+						rec = op.Val
+					}
+				}
+			}
+			saves -= saves0
+			size := 2 + len(topic) + 2 + n
+			if delta > 0 {
+				w.Probe("invalid_over-268435455")
+				if err == nil || !mqtt.IsDeny(err) {
+					w.Violate("C09", "invalid-accepted", name+"-over-268435455", "%s with a remaining length of %d bytes (limit %d) returned %v, want an IsDeny error", name, size, packetMax, err)
+				}
+				if saves != 0 {
+					w.Violate("C09", "denied-left-trace", name+"-over-268435455", "%s with a remaining length of %d bytes stored %d records", name, size, saves)
+				}
+				return
+			}
+			w.Probe("valid_at-268435455")
+			if err != nil {
+				w.Violate("C09", "valid-denied", name+"-at-limit", "%s with a remaining length of %d bytes (limit %d) was refused: %v", name, size, packetMax, err)
+				return
+			}
+			pkt, _, _, ok := StoredPacket(rec)
+			if !ok || len(pkt) < 5 {
+				w.Violate("C09", "malformed", name+"-at-limit", "%s at the size limit: no stored packet (%d bytes)", name, len(rec))
+				return
+			}
+			want := append([]byte{byte(PUBLISH<<4) | byte(level)<<1}, encLen(size)...)
+			if !bytes.Equal(pkt[:len(want)], want) || len(pkt) != len(want)+size {
+				w.Violate("C09", "malformed", name+"-at-limit", "%s with a remaining length of %d bytes: stored packet begins % x and has %d bytes, want % x and %d bytes", name, size, pkt[:5], len(pkt), want, len(want)+size)
+			}
+		})
+	})
+	res.Touched = true
+	res.Faultless = true
+	res.Summary = fmt.Sprintf("size limit: level %d, remaining length %d%+d", level, packetMax, delta)
+}
+
 func init() {
-	register("C09", Family{Name: "codec", Weight: 1, Run: famC09})
+	register("C09", Family{Name: "codec", Weight: 1500, Run: famC09})
+	register("C09", Family{Name: "size-limit", Weight: 1, Run: famC09Huge})
 }
